@@ -608,6 +608,9 @@ func runC09(e *Env) {
 			}
 			r.Check(okR1, "E3.result", key+"/r1", p.Pos(s.call.Pos()), "a non-zero return value (refused thread-sync) leads to a non-nil error return", detail)
 			if okR1 {
+				checkR1Cases(e, m, s, key)
+			}
+			if okR1 {
 				// every nil return of the wrapper must be on a path where the r1 inspection took place or sync was not requested:
 				// i.e. no `return nil` may dominate-free bypass the r1 check when the TSYNC bit test holds.  We require that each
 				// nil return is NOT reachable on the edge (tsync requested && r1 != 0): covered by okR1's region logic above.
@@ -1163,4 +1166,142 @@ func instrReaches(a, b ssa.Instruction) bool {
 		}
 	}
 	return false
+}
+
+// checkR1Cases: exhaustive case split over the flag word (all combinations of the six UAPI flag bits) and
+// r1 in {0, non-zero}, errno = 0: the wrapper's branch conditions only test bits of `flags` and compare r1 with 0,
+// so following its CFG under each case is a complete decision table.  Whenever thread-sync is requested without
+// TSYNC_ESRCH and the kernel returned a non-zero value, the wrapper must return a non-nil error.
+func checkR1Cases(e *Env, m *loaderModel, s *rawSite, key string) {
+	r := e.R
+	p := m.p
+	or := e.Oracle()
+	fn := s.fn
+	tsync := int64(or.Consts["SECCOMP_FILTER_FLAG_TSYNC"])
+	esrch := int64(or.Consts["SECCOMP_FILTER_FLAG_TSYNC_ESRCH"])
+	r1v := flow.ResultN(s.call, 0)
+	errv := flow.ResultN(s.call, 2)
+	type env struct{ flags, r1 int64 }
+	var eval func(v ssa.Value, en env, depth int) (int64, bool)
+	eval = func(v ssa.Value, en env, depth int) (int64, bool) {
+		if depth > 20 {
+			return 0, false
+		}
+		if k, ok := flow.ConstInt(v); ok {
+			return k, true
+		}
+		switch x := v.(type) {
+		case *ssa.Parameter:
+			if x == fn.Params[1] {
+				return en.flags, true
+			}
+		case *ssa.Convert:
+			return eval(x.X, en, depth+1)
+		case *ssa.ChangeType:
+			return eval(x.X, en, depth+1)
+		case *ssa.Extract:
+			if ssa.Value(x) == r1v {
+				return en.r1, true
+			}
+			if ssa.Value(x) == errv {
+				return 0, true
+			}
+		case *ssa.UnOp:
+			if x.Op == token.NOT {
+				a, ok := eval(x.X, en, depth+1)
+				if a == 0 {
+					return 1, ok
+				}
+				return 0, ok
+			}
+		case *ssa.BinOp:
+			a, ok1 := eval(x.X, en, depth+1)
+			b, ok2 := eval(x.Y, en, depth+1)
+			if !ok1 || !ok2 {
+				return 0, false
+			}
+			bv := func(c bool) (int64, bool) {
+				if c {
+					return 1, true
+				}
+				return 0, true
+			}
+			switch x.Op {
+			case token.AND:
+				return a & b, true
+			case token.OR:
+				return a | b, true
+			case token.XOR:
+				return a ^ b, true
+			case token.AND_NOT:
+				return a &^ b, true
+			case token.EQL:
+				return bv(a == b)
+			case token.NEQ:
+				return bv(a != b)
+			case token.GTR:
+				return bv(a > b)
+			case token.LSS:
+				return bv(a < b)
+			case token.GEQ:
+				return bv(a >= b)
+			case token.LEQ:
+				return bv(a <= b)
+			}
+		}
+		return 0, false
+	}
+	nCases, bad, und := 0, 0, 0
+	var firstBad string
+	for flags := int64(0); flags < 64; flags++ {
+		for _, r1 := range []int64{0, 7} {
+			nCases++
+			en := env{flags, r1}
+			b := fn.Blocks[0]
+			var ret *ssa.Return
+			for steps := 0; steps < 50 && b != nil; steps++ {
+				last := b.Instrs[len(b.Instrs)-1]
+				switch x := last.(type) {
+				case *ssa.Return:
+					ret = x
+					b = nil
+				case *ssa.If:
+					c, ok := eval(x.Cond, en, 0)
+					if !ok {
+						b = nil
+						break
+					}
+					if c != 0 {
+						b = b.Succs[0]
+					} else {
+						b = b.Succs[1]
+					}
+				case *ssa.Jump:
+					b = b.Succs[0]
+				default:
+					b = nil
+				}
+			}
+			if ret == nil {
+				und++
+				continue
+			}
+			res := flow.RetResults(ret)
+			isNil := flow.IsNilConst(res[len(res)-1])
+			mustFail := flags&tsync != 0 && flags&esrch == 0 && r1 != 0
+			if mustFail && isNil {
+				bad++
+				if firstBad == "" {
+					firstBad = fmt.Sprintf("flags=%#x (tsync with other bits), return value %d, errno 0 -> the wrapper returns nil", flags, r1)
+				}
+			}
+		}
+	}
+	if und > 0 {
+		r.Unknown("E3.result", key+"/r1-cases", p.Pos(s.call.Pos()), fmt.Sprintf("%d of %d (flags, r1) cases could not be followed through the wrapper's branch conditions", und, nCases))
+		return
+	}
+	r.Check(bad == 0, "E3.result", key+"/r1-cases", p.Pos(s.call.Pos()),
+		fmt.Sprintf("%d cases (64 flag words x r1 in {0, non-zero}): every refused thread-sync (TSYNC set, TSYNC_ESRCH clear, non-zero return) yields a non-nil error", nCases),
+		fmt.Sprintf("%d of %d (flags, r1) cases return nil although the kernel refused the thread synchronisation, e.g. %s: LoadFilter reports success with no filter attached", bad, nCases, firstBad))
 }
